@@ -286,7 +286,7 @@ func (u *upstream) createClient(addr string) (*client, error) {
 	// start client
 	go func() {
 		c.Start()
-		u.removeClient(addr)
+		u.removeExitedClient(addr, c)
 	}()
 	u.addClientLocked(addr, c)
 	return c, nil
@@ -301,6 +301,19 @@ func (u *upstream) addClientLocked(addr string, c *client) {
 func (u *upstream) removeClient(addr string) {
 	u.clientsMu.Lock()
 	defer u.clientsMu.Unlock()
+	u.removeClientLocked(addr)
+}
+
+// removeExitedClient forgets c, which has exited, unless the entry of addr
+// belongs to a newer client already: after the table has been reset (all
+// hosts replaced) a replacement may be registered while c is still winding
+// down, and removing that one would hide it from Stop for ever.
+func (u *upstream) removeExitedClient(addr string, c *client) {
+	u.clientsMu.Lock()
+	defer u.clientsMu.Unlock()
+	if u.loadClients()[addr] != c {
+		return
+	}
 	u.removeClientLocked(addr)
 }
 
